@@ -43,6 +43,9 @@ Rewrite rules (each application is counted per function and reported in the evid
       `Some((_, Dir::Left))`): by default binding modes both match exactly the same values; Verus rejects `&` patterns
   R17 `for &(a, b) in EXPR {` -> `for r17_ in EXPR { let (a, b) = *r17_;`: the reference pattern of a `for` header
       becomes a first body statement copying the (Copy) tuple out of the reference - same bindings, same values
+  R19 `//@fmtlit ID "LITERAL"` declares a format string; in a unit with such declarations `writeln!(w, LITERAL, a, b, ..)` becomes
+      `fmtlog::lineN(w, ID, a, b, ..)` (prelude-style seam: appends (ID, rendered arguments) to the sink's ghost line log); an
+      undeclared literal in such a unit is an extraction error (undecided), so a changed format string cannot pass unnoticed
   R18 `| where K: Ord`: a supertrait bound of the real trait (`Kmer: ... + Ord`) that the Verus-side seam trait does not carry
       is restated on the extracted function as a where clause (no executable effect)
   R15 `//@stmts file | container | fn | from "a" | to "b"`: a contiguous statement range of a function body
@@ -308,6 +311,9 @@ def split_top_args(text, mask, a, b):
     return parts
 
 
+FMT_LITERALS = {}  # rule R19: format-string literal -> id, declared by `//@fmtlit ID "LITERAL"` lines of the unit template
+
+
 def apply_rewrites(body, counts):
     """body: text of `{ ... }`. Returns rewritten text. Edits are applied right-to-left."""
     mask = code_mask(body)
@@ -343,6 +349,14 @@ def apply_rewrites(body, counts):
         args = [body[a:b].strip() for a, b in parts]
         if len(args) == 3 and args[1] == '"{}"' and name == "write":
             edits.append((s_, c + 1, "fmt::sink(%s, %s)" % (args[0], args[2])))
+        elif FMT_LITERALS and name == "writeln" and len(args) >= 2 and args[1] in FMT_LITERALS:
+            # R19: `writeln!(w, LIT, a, b, ..)` with a DECLARED literal -> `fmtlog::lineN(w, id, a, b, ..)`: the line is recorded in
+            # the sink's ghost log as (id of the format string, rendered arguments)
+            edits.append((s_, c + 1, "fmtlog::line%d(%s)" % (len(args) - 2, ", ".join([args[0], str(FMT_LITERALS[args[1]])] + args[2:]))))
+            counts["R19"] = counts.get("R19", 0) + 1
+            continue
+        elif FMT_LITERALS and name == "writeln":
+            raise ExtractError("R19: format string %s is not one of the unit's declared literals" % (args[1] if len(args) > 1 else "?"))
         else:
             edits.append((s_, c + 1, "fmt::sink_other(%s)" % args[0]))
         counts["R4"] = counts.get("R4", 0) + 1
@@ -737,6 +751,7 @@ def expand_includes(path, depth=0):
 
 def process(template_path, repo, meta, twin=None, stub=()):
     tmpl = expand_includes(template_path)
+    FMT_LITERALS.clear()
     out = []
     sources = {}
     i = 0
@@ -757,6 +772,12 @@ def process(template_path, repo, meta, twin=None, stub=()):
             out.append(hits[0].group(0))
             meta["items"].append({"kind": "const", "file": mc.group(1), "name": mc.group(2),
                                   "sha256": hashlib.sha256(hits[0].group(0).encode()).hexdigest()})
+            i += 1
+            continue
+        mf = re.match(r'^\s*//@fmtlit\s+(\d+)\s+(".*")\s*$', ln)
+        if mf:
+            FMT_LITERALS[mf.group(2)] = int(mf.group(1))
+            out.append("// format literal %s = %s" % (mf.group(1), mf.group(2)))
             i += 1
             continue
         ms = re.match(r"^\s*//@stmts\s+(.*)$", ln)
